@@ -7,17 +7,17 @@ from vf import env
 
 TEXT = {
     "C01": ("exploration", "runtime monitor on TokenizedMarkdown.transform: outcome + deterministic work count (sys.monitoring PY_START) under a step budget",
-            "Every parse in the frozen universes Z1-Z4 (quick: seed-chosen indices; thorough: all 2.75 M documents) must return tokens within K*(n+64)^2 counted function entries, and 51 scaling families must grow with exponent <= 2.3. Held on the documents explored; nothing is proved for documents outside the universes.", "4 C01"),
+            "Every parse in the frozen universes Z1-Z8 (quick: seed-chosen indices; thorough: all 3.35 M documents) must return tokens within K*(n+64)^2 counted function entries and within 20 s of process CPU time (work inside C extensions), and 51 scaling families must grow with exponent <= 2.3. Held on the documents explored; nothing is proved for documents outside the universes.", "4 C01"),
     "C02": ("exploration", "identity oracle regenerate(parse(d)) == d evaluated on every successful parse of the workload",
-            "Round-trip identity checked character for character on every explored document; exhaustive only over the frozen universes when the thorough tier runs.", "4 C02"),
+            "Round-trip identity checked character for character on every explored document of Z1-Z8 and on every intermediate document the application parses while fixing (FX workload); exhaustive only over the frozen universes when the thorough tier runs.", "4 C02"),
     "C03": ("exploration", "differential oracle: normalised HTML event stream vs vendored markdown-it-py (independent CommonMark implementation)",
             "Agreement with an independent implementation on every explored document on which the comparator does not abstain; inherits the reference's correctness outside the neutralised quirks.", "4 C03"),
     "C04": ("exploration", "independent stack automaton replayed over every token list the real parser returns",
-            "Nesting discipline checked on every explored parse (and on the tokens rules receive, see C14).", "4 C04"),
+            "Nesting discipline checked on every explored parse of Z1-Z8 and on the internal parses of fix runs (FX workload); the tokens rules receive are identical objects (checked by C14).", "4 C04"),
     "C05": ("exploration", "position oracle (line exists, column in range, block order, opening text at the position) over every position-carrying token",
-            "Positions checked against the source text on every explored parse; text tokens by range only.", "4 C05"),
+            "Positions checked against the source text on every explored parse (Z1-Z8 incl. multi-line inline constructs, FX workload); text tokens by range only.", "4 C05"),
     "C06": ("exploration", "differential: real single-rule scans vs executable transcriptions of each rule's documented condition over an independent parse (three-valued)",
-            "19 rules x their documented configuration values on documents where both parsers agree; the oracle abstains where the rule's page is silent.", "4 C06"),
+            "23 rules x their documented configuration values (incl. every ordering of MD013's three limits, MD012 maximum 0..3) on documents where both parsers agree; the oracle abstains where the rule's page is silent.", "4 C06"),
     "C07": ("exploration", "monitor on real scan runs: plugin errors, range / uniqueness / order of every report, repeat in the same and in a fresh process",
             "Every report of every explored scan (default rules, all rules, two single rules) is range-checked, order-checked and compared with a repeat run.", "4 C07"),
     "C08": ("exploration", "differential through an independent renderer: content fingerprint (markdown-it tokens) of the file before vs after a real fix run",
@@ -39,7 +39,7 @@ TEXT = {
     "C16": ("exploration", "differential between code paths: file scan, scan-stdin, scan_string, scan_path, CLI processes, fix vs fix_string; diagnostics on/off",
             "Same failures / fixed text through every entry point on every explored document and line-ending variant.", "4 C16"),
     "C17": ("exploration", "executable precedence model vs `plugins list` and probe scans over the enumerated layer lattice; strict/lenient cross-check for every configuration item",
-            "Thorough enumerates all 4050 layer assignments x naming x format and every configuration item of all 46 rules.", "4 C17"),
+            "Both tiers enumerate all 4374 layer assignments x naming x format (unset layers are absent or exist-but-silent) and every configuration item of all 46 rules.", "4 C17"),
     "C18": ("exploration", "scenario table vs SystemExit code, the category seen at exit_application (hook) and real process exit status",
             "Every scenario (incl. 3-file mixtures in each order) x 2 schemes x 4 ways of choosing the scheme in thorough.", "4 C18"),
     "C19": ("exploration", "reference model of the documented selection rules vs --list-files / scan / fix / list_path on generated trees",
@@ -79,7 +79,7 @@ def main():
         "engines": [{"name": "vf", "path": "vf/", "serves_properties": [f"C{i:02d}" for i in range(1, 21)],
                      "kind_free_text": "runtime monitors on the real code under frozen-universe workloads, reference-model oracles, fault injection; three-valued verdicts"}],
         "checks": checks,
-        "notes": "Sanitizers / race detectors do not apply (pure single-threaded Python, see DESIGN.md 1). Five fix: commits repair genuine defects found by C14/C15/C18/C19 (see known_findings.json, status fixed).",
+        "notes": "Sanitizers / race detectors do not apply (pure single-threaded Python, see DESIGN.md 1). Six fix: commits repair genuine defects found by C07/C14/C15/C18/C19 (see known_findings.json, status fixed).",
         "not_applicable": [],
     }
     json.dump(m, open(os.path.join(env.VERIF, "MANIFEST.json"), "w"), indent=1)
